@@ -20,6 +20,7 @@ type vfMon struct {
 	clearedAt           int
 	servedReleased      bool
 	cache               *Cache[uint64, vfVal]
+	store               *shardedMap[vfVal]
 }
 
 type vfCfg struct {
